@@ -140,6 +140,34 @@ Theorem C11_gc_from_memory_height_refuted : ~ gc_from_memory_height_statement (f
 Proof. exact gc_from_memory_height_refuted. Qed.
 Print Assumptions C11_gc_from_memory_height_refuted.
 
+(* the window length is a function of the height ([mtb_at E cfg pol h]: the configuration value below the Echidna height
+   E, the Policy contract's value from E on) and is never 0 *)
+Theorem C11_window_never_zero : forall E cfg pol h,
+  (0 < cfg)%nat -> (forall x, 0 < pol x)%nat -> (0 < mtb_at E cfg pol h)%nat.
+Proof. exact mtb_at_pos. Qed.
+Print Assumptions C11_window_never_zero.
+
+(* for EVERY persisted height p — below, at and above the hard-fork height — a collection run with a window length of at
+   least the one in force at p keeps every state of p's traceable window and re-establishes the invariant *)
+Theorem C11_gc_safe_at_every_height : forall (nb : hash -> bytes) H g s E cfg pol period m',
+  Inv nb MGC H g s ->
+  let p := s_n s in
+  let w := mtb_at E cfg pol p in
+  (w <= m')%nat ->
+  let G := gc_target p m' period in
+  (forall j h, (p - w <= j <= p)%nat -> (g <= j)%nat -> 0 < occT h (trie_at H j) ->
+     lookup (gc (Z.of_nat G) (s_tbl s)) h = lookup (s_tbl s) h /\ lookup (s_tbl s) h <> None) /\
+  exists s', step true MGC s (EGC G) = Some s' /\ Inv nb MGC H (Nat.max g G) s'.
+Proof. exact gc_safe_at_every_height. Qed.
+Print Assumptions C11_gc_safe_at_every_height.
+
+(* a getter yielding 0 (the Policy value read one block before the contract initialises it, at E-1) makes the
+   collection unsafe for the window the configuration promises: witness MTB 2, 4 persisted blocks *)
+Definition C11_gc_with_zero_window_statement : Prop := forall nb, gc_with_zero_window_statement nb.
+Theorem C11_gc_with_zero_window_refuted : ~ gc_with_zero_window_statement (fun h => h).
+Proof. exact gc_with_zero_window_refuted. Qed.
+Print Assumptions C11_gc_with_zero_window_refuted.
+
 (* ================= the interface hypothesis discharged against the concrete trie of C10 =================
    TrieRC/Concrete.v: [put_trace], [delete_trace], [put_batch_trace] list the addRef/removeRef calls of Trie.Put,
    Trie.Delete and Trie.PutBatch with the placements of trie.go / batch.go, over the model of coq/Trie/Model.v and an
